@@ -64,8 +64,12 @@ Inductive stage :=
 | SPostReadPushHeader | SPreReadPushBody | SPostReadPushBody.
 
 (* what the handler function did: returned (result, nil-or-status) or panicked.
-   [HReturn (Some s)] with code 0 is a non-nil OK status. *)
-Inductive handler_outcome := HReturn (s : ostatus) | HPanic (c : cause).
+   [HReturn (Some s)] with code 0 is a non-nil OK status.
+   [HEncodePanic c]: it returned OK with a result whose ENCODING panics with c while the reply
+   is being packed (inside session.write -> socket.WriteMessage; e.g. a json.Marshaler that
+   panics): session.write's deferred unlock releases the write lock, the panic reaches
+   handleCall's recover with writed = false and a 500 is written instead. *)
+Inductive handler_outcome := HReturn (s : ostatus) | HPanic (c : cause) | HEncodePanic (c : cause).
 
 (* what socket.ReadMessage did with the frame.
    [RHeaderErr k]: it failed before asking for the body (binding never ran);
@@ -221,6 +225,11 @@ Section Dispatch.
         end
     end.
 
+  (* the status written after the result's encoder panicked: preWriteReply runs first, a
+     panic there is recovered before any write is attempted *)
+  Definition encode_panic_status (f : frame) (c : cause) : ostatus :=
+    Some (st_internal (match f_verdict f SPreWriteReply with VPanic c' => c' | _ => c end)).
+
   (* context.go handleCall; [stat] is c.stat on entry, [h] is c.handler,
      [has_pc] = "c.pluginContainer is non-nil" (false only when binding never ran) *)
   Definition handle_call (f : frame) (stat : ostatus) (h : option hkind) (has_pc : bool)
@@ -239,6 +248,7 @@ Section Dispatch.
           | Some k =>
               match f_handler f with
               | HPanic c => Invoke k :: write_once f (Some (st_internal c))
+              | HEncodePanic c => Invoke k :: write_once f (encode_panic_status f c)
               | HReturn hs =>
                   Invoke k :: reply_path f (if st_ok hs then None else hs)
               end
